@@ -1,4 +1,180 @@
-import KpModel.Format.Kdbx4
+import KpModel.Props.C01
+import KpModel.Generated.Consts
+/-!
+# C07 — saved files are valid KDBX4 that an independent reader decodes identically
+Property theorems only.  `saveSegments` is the faithful transcription of `dump_kdbx4`.  Proved: what `save`
+writes is one of the conforming layouts and therefore decodes to what was saved (framing theorem C01);
+the constants of the *source* (regenerated into `Generated/Consts.lean` on every run) are the published ones
+and the sizes are those the algorithms require.
+-/
 namespace Kp.Fmt
-theorem placeholder_C07 : True := trivial
+
+/-! ### the translator's tie: constants of the source = constants of the model = published constants -/
+
+/-- field ids, algorithm UUIDs, compression and inner-cipher ids, dictionary type ids, signature -/
+theorem consts_tie_ids :
+    Kp.Gen.HEADER_END = 0 ∧ Kp.Gen.HEADER_COMMENT = 1 ∧ Kp.Gen.HEADER_OUTER_ENCRYPTION_ID = 2
+    ∧ Kp.Gen.HEADER_COMPRESSION_ID = 3 ∧ Kp.Gen.HEADER_MASTER_SEED = 4 ∧ Kp.Gen.HEADER_ENCRYPTION_IV = 7
+    ∧ Kp.Gen.HEADER_KDF_PARAMS = 11
+    ∧ Kp.Gen.INNER_HEADER_END = 0 ∧ Kp.Gen.INNER_HEADER_RANDOM_STREAM_ID = 1
+    ∧ Kp.Gen.INNER_HEADER_RANDOM_STREAM_KEY = 2 ∧ Kp.Gen.INNER_HEADER_BINARY_ATTACHMENTS = 3
+    ∧ Kp.Gen.CIPHERSUITE_AES256 = cipherUuid .aes256 ∧ Kp.Gen.CIPHERSUITE_TWOFISH = cipherUuid .twofish
+    ∧ Kp.Gen.CIPHERSUITE_CHACHA20 = cipherUuid .chacha20
+    ∧ Kp.Gen.KDF_AES_KDBX3 = kdfAesKdbx3 ∧ Kp.Gen.KDF_AES_KDBX4 = kdfAesKdbx4
+    ∧ Kp.Gen.KDF_ARGON2 = kdfArgon2d ∧ Kp.Gen.KDF_ARGON2ID = kdfArgon2id
+    ∧ Kp.Gen.INNER_PLAIN = innerId .plain ∧ Kp.Gen.INNER_SALSA_20 = innerId .salsa20
+    ∧ Kp.Gen.INNER_CHA_CHA_20 = innerId .chacha20
+    ∧ Kp.Gen.COMPRESSION_NONE = 0 ∧ Kp.Gen.COMPRESSION_GZIP = 1
+    ∧ Kp.Gen.VARIANT_DICTIONARY_VERSION = 0x100 ∧ Kp.Gen.VARIANT_DICTIONARY_END = 0
+    ∧ Kp.Gen.U32_TYPE_ID = 0x04 ∧ Kp.Gen.U64_TYPE_ID = 0x05 ∧ Kp.Gen.BOOL_TYPE_ID = 0x08
+    ∧ Kp.Gen.I32_TYPE_ID = 0x0c ∧ Kp.Gen.I64_TYPE_ID = 0x0d ∧ Kp.Gen.STR_TYPE_ID = 0x18 ∧ Kp.Gen.BYTES_TYPE_ID = 0x42
+    ∧ Kp.Gen.KDBX_IDENTIFIER = [0x03, 0xd9, 0xa2, 0x9a] ∧ Kp.Gen.KEEPASS_LATEST_ID = 0xb54bfb67
+    ∧ Kp.Gen.KEEPASS_1_ID = 0xb54bfb65 ∧ Kp.Gen.KEEPASS_2_ID = 0xb54bfb66
+    ∧ Kp.Gen.KDBX3_MAJOR_VERSION = 3 ∧ Kp.Gen.KDBX4_MAJOR_VERSION = 4 ∧ Kp.Gen.VERSION_HEADER_SIZE = 12
+    ∧ Kp.Gen.HMAC_KEY_END = [1]
+    ∧ Kp.Gen.KDF_ID.map (fun c => UInt8.ofNat c.toNat) = kUUID
+    ∧ Kp.Gen.KDF_ROUNDS.map (fun c => UInt8.ofNat c.toNat) = kR ∧ Kp.Gen.KDF_SEED.map (fun c => UInt8.ofNat c.toNat) = kS
+    ∧ Kp.Gen.KDF_SALT.map (fun c => UInt8.ofNat c.toNat) = kS ∧ Kp.Gen.KDF_MEMORY.map (fun c => UInt8.ofNat c.toNat) = kM
+    ∧ Kp.Gen.KDF_ITERATIONS.map (fun c => UInt8.ofNat c.toNat) = kI
+    ∧ Kp.Gen.KDF_PARALLELISM.map (fun c => UInt8.ofNat c.toNat) = kP
+    ∧ Kp.Gen.KDF_VERSION.map (fun c => UInt8.ofNat c.toNat) = kV := by
+  decide
+
+/-- what each algorithm requires (written from the algorithm specifications, not from the source):
+    CBC IV = block size 16; ChaCha20 (IETF) nonce 12; Salsa20 key 32; seeds 32 -/
+def requiredIv : OuterCipher → Nat | .aes256 => 16 | .twofish => 16 | .chacha20 => 12
+/-- minimal inner key: Salsa20 needs exactly 32; ChaCha20's key is hashed (SHA-512), 32 bytes of entropy; none for plain -/
+def requiredInnerKey : InnerCipher → Nat | .plain => 0 | .salsa20 => 32 | .chacha20 => 32
+
+/-- **C07_sizes**: the sizes in the source are the sizes the model uses and the algorithms require -/
+theorem C07_sizes :
+    Kp.Gen.AES256_IV_SIZE = ivSize .aes256 ∧ Kp.Gen.TWOFISH_IV_SIZE = ivSize .twofish
+    ∧ Kp.Gen.CHACHA20_IV_SIZE = ivSize .chacha20
+    ∧ (∀ c, ivSize c = requiredIv c)
+    ∧ Kp.Gen.PLAIN_KEY_SIZE = innerKeySize .plain ∧ Kp.Gen.SALSA20_KEY_SIZE = innerKeySize .salsa20
+    ∧ Kp.Gen.CHACHA20_KEY_SIZE = innerKeySize .chacha20
+    ∧ (∀ c, requiredInnerKey c ≤ innerKeySize c) ∧ innerKeySize .salsa20 = 32
+    ∧ Kp.Gen.HEADER_MASTER_SEED_SIZE = masterSeedSize ∧ masterSeedSize = 32
+    ∧ Kp.Gen.KDF_SEED_SIZE = 32 ∧ (∀ k, kdfSeedSize k = 32)
+    ∧ Kp.Gen.AES256_KEY_SIZE = 32 ∧ Kp.Gen.TWOFISH_KEY_SIZE = 32
+    ∧ Kp.Gen.SALSA20_NONCE = [0xE8, 0x30, 0x09, 0x4B, 0x97, 0x20, 0x5D, 0x2A] := by
+  refine ⟨by decide, by decide, by decide, fun c => by cases c <;> rfl, by decide, by decide, by decide,
+    fun c => by cases c <;> decide, rfl, by decide, rfl, by decide, fun _ => rfl, by decide, by decide, by decide⟩
+
+/-! ### what `save` writes is a conforming layout -/
+
+theorem save_is_build (P : Prims) (c : Config) (rnd : Bytes)
+    (vdOrder : List (UInt8 × Bytes × Bytes) → List (UInt8 × Bytes × Bytes))
+    (atts : List (UInt8 × Bytes)) (xml composite : Bytes) :
+    (saveSegments P c rnd vdOrder atts xml composite).map List.flatten
+      = build P c (takeTape c rnd) (libraryLayout vdOrder) atts xml composite := by
+  unfold saveSegments build
+  simp only
+  cases transformedKey P c.kdf (takeTape c rnd).kdfSeed composite with
+  | none => rfl
+  | some tk =>
+    simp only [libraryLayout]
+    cases P.encO c.outer (P.sha256 ((takeTape c rnd).masterSeed ++ tk)) (takeTape c rnd).iv
+        (plainPayload P c (takeTape c rnd) atts false xml) with
+    | none => rfl
+    | some ct => simp [assemble, writeBlocks, List.append_assoc]
+
+theorem takeTape_lengths (c : Config) (rnd : Bytes)
+    (h : masterSeedSize + ivSize c.outer + innerKeySize c.inner + kdfSeedSize c.kdf ≤ rnd.length) :
+    (takeTape c rnd).masterSeed.length = 32 ∧ (takeTape c rnd).iv.length = ivSize c.outer
+    ∧ (takeTape c rnd).innerKey.length = innerKeySize c.inner ∧ (takeTape c rnd).kdfSeed.length = 32 := by
+  simp only [takeTape, masterSeedSize, kdfSeedSize] at h ⊢
+  simp only [List.length_take, List.length_drop]
+  omega
+
+/-- parameters a `DatabaseConfig` can carry (Rust integer widths; Argon2 version is an enum of two values) -/
+def configInRange (c : Config) : Prop :=
+  c.minor < 65536 ∧
+  match c.kdf with
+  | .aes rounds => rounds < 18446744073709551616
+  | .argon2 _ iterations memory parallelism version =>
+    iterations < 18446744073709551616 ∧ memory < 18446744073709551616 ∧ parallelism < 4294967296
+      ∧ (version = 0x10 ∨ version = 0x13)
+
+theorem vdDump_length_lt (ents : List (UInt8 × Bytes × Bytes)) (n : Nat)
+    (h : (ents.flatMap fun e => vdEntryBytes e.1 e.2.1 e.2.2).length ≤ n) (hn : n + 3 < 4294967296) :
+    (vdDump ents).length < 4294967296 := by
+  simp only [vdDump, List.length_append, toLe16, List.length_cons, List.length_nil]
+  omega
+
+theorem library_conforming (c : Config) (rnd : Bytes) (atts : List (UInt8 × Bytes)) (ct : Bytes)
+    (vdOrder : List (UInt8 × Bytes × Bytes) → List (UInt8 × Bytes × Bytes))
+    (hperm : ∀ l, (vdOrder l).Perm l)
+    (hr : configInRange c)
+    (hrnd : masterSeedSize + ivSize c.outer + innerKeySize c.inner + kdfSeedSize c.kdf ≤ rnd.length)
+    (ha : attOk atts) (hct : ct.length < 4294967296) :
+    Conforming c (takeTape c rnd) (libraryLayout vdOrder) atts ct := by
+  obtain ⟨l1, l2, l3, l4⟩ := takeTape_lengths c rnd hrnd
+  have hkr : kdfInRange c.kdf (takeTape c rnd).kdfSeed := by
+    refine ⟨by rw [l4]; decide, ?_⟩
+    have := hr.2
+    cases hk : c.kdf <;> rw [hk] at this <;> exact this
+  have hvdlen : (vdDump (vdOrder (kdfVdEntries c.kdf (takeTape c rnd).kdfSeed))).length < 4294967296 := by
+    have hp := hperm (kdfVdEntries c.kdf (takeTape c rnd).kdfSeed)
+    have hlen : ((vdOrder (kdfVdEntries c.kdf (takeTape c rnd).kdfSeed)).flatMap fun e => vdEntryBytes e.1 e.2.1 e.2.2).length
+        = ((kdfVdEntries c.kdf (takeTape c rnd).kdfSeed).flatMap fun e => vdEntryBytes e.1 e.2.1 e.2.2).length := by
+      simp only [List.length_flatMap]
+      exact (hp.map _).sum_nat
+    apply vdDump_length_lt _ 400 _ (by decide)
+    rw [hlen]
+    cases hk : c.kdf with
+    | aes r =>
+      simp [kdfVdEntries, vdEntryBytes, kUUID, kR, kS, kdfAesKdbx4, l4]
+    | argon2 id it mem par ver =>
+      simp [kdfVdEntries, vdEntryBytes, kUUID, kM, kS, kI, kP, kV, l4]
+      cases id <;> simp [kdfArgon2id, kdfArgon2d]
+  refine ⟨⟨hr.1, by rw [l1]; decide, by rw [l2]; cases c.outer <;> decide, hkr, hperm _, ?_, by simp [libraryLayout],
+      hvdlen, by simp [libraryLayout]⟩, fun r _ => l4, by rw [l3]; cases c.inner <;> decide,
+      fun h => by rw [l3, h]; rfl, ha, ?_, ?_⟩
+  · intro f hf
+    simp [libraryLayout] at hf
+    rcases hf with rfl | rfl | rfl | rfl | rfl <;> trivial
+  · simp only [libraryLayout]
+    split <;> simp_all
+  · intro b hb
+    simp only [libraryLayout] at hb
+    split at hb
+    · cases hb
+    · simp at hb; subst hb; exact ⟨by assumption, hct⟩
+
+/-- **C07_wellformed**: whatever `save` writes (for every configuration in range, every draw of the random
+    values, every hash-map order, all attachments and XML) is read back by the faithful reader — and, by the
+    framing theorem, by any reader of conforming files — as exactly what was saved. -/
+theorem C07_wellformed (P : Prims) (L : P.Laws) (c : Config) (rnd : Bytes)
+    (vdOrder : List (UInt8 × Bytes × Bytes) → List (UInt8 × Bytes × Bytes))
+    (atts : List (UInt8 × Bytes)) (xml composite : Bytes) (segs : List Bytes)
+    (hperm : ∀ l, (vdOrder l).Perm l) (hr : configInRange c)
+    (hrnd : masterSeedSize + ivSize c.outer + innerKeySize c.inner + kdfSeedSize c.kdf ≤ rnd.length)
+    (ha : attOk atts)
+    (hsize : ∀ ct, P.encO c.outer (P.sha256 ((takeTape c rnd).masterSeed ++
+        ((transformedKey P c.kdf (takeTape c rnd).kdfSeed composite).getD []))) (takeTape c rnd).iv
+        (plainPayload P c (takeTape c rnd) atts false xml) = some ct → ct.length < 4294967296)
+    (hs : saveSegments P c rnd vdOrder atts xml composite = some segs) :
+    decrypt P segs.flatten (some composite) = .ok ⟨c, atts, (takeTape c rnd).innerKey, xml⟩ := by
+  have hb := save_is_build P c rnd vdOrder atts xml composite
+  rw [hs] at hb
+  simp only [Option.map_some] at hb
+  unfold build at hb
+  cases htk : transformedKey P c.kdf (takeTape c rnd).kdfSeed composite with
+  | none => rw [htk] at hb; cases hb
+  | some tk =>
+    rw [htk] at hb
+    simp only at hb
+    cases hct : P.encO c.outer (P.sha256 ((takeTape c rnd).masterSeed ++ tk)) (takeTape c rnd).iv
+        (plainPayload P c (takeTape c rnd) atts (libraryLayout vdOrder).attachmentsFirst xml) with
+    | none => rw [hct] at hb; cases hb
+    | some ct =>
+      rw [hct] at hb
+      simp only at hb
+      injection hb with hb
+      rw [hb]
+      have hlen : ct.length < 4294967296 := hsize ct (by rw [htk]; exact hct)
+      exact C01_framing P L c (takeTape c rnd) (libraryLayout vdOrder) atts xml composite tk ct htk hct
+        (library_conforming c rnd atts ct vdOrder hperm hr hrnd ha hlen)
+
 end Kp.Fmt
